@@ -50,7 +50,7 @@ def install(E):
             if not (lo <= v <= hi):
                 raise PathEnd("assume-false")
             return v & mask(64)
-        if hi - lo <= 64:
+        if hi - lo <= 64 and E.presplit:
             # small range: case split keeps integers concrete (sound: every value gets a path)
             def mk(v):
                 def f(s):
@@ -781,6 +781,8 @@ def c_format(E, st, fmt, args):
             prec = str(to_signed(args[ai], 32)); ai += 1
         v = args[ai]; ai += 1
         if is_sym(v):
+            if isinstance(v, z3.BitVecRef):
+                raise S.SymOffset(v)          # concretise by solver enumeration, one path per feasible value
             raise EngineError("symbolic argument formatted by printf-family call")
         spec = "%" + flags + (width or "") + ("." + prec if prec is not None else "")
         if conv in "di":
